@@ -45,6 +45,9 @@ fn emit_choice(
     let mut branch_nodes = Vec::new();
     let mut body_already_emitted = false;
     if let Some(selected_text) = &choice.selected_text {
+        let inline_single_divert = choice.body_divert_is_inline
+            && matches!(choice.body.as_slice(), [Node::Divert(_)])
+            && !(choice.has_choice_only_content && !choice.has_start_content);
         let recovered_inline_divert = if choice.body.is_empty() {
             recover_selected_text_inline_divert(selected_text)
         } else {
@@ -68,10 +71,24 @@ fn emit_choice(
                 arguments: Vec::new(),
             }));
             body_already_emitted = true;
+        } else if inline_single_divert {
+            // `* text -> target`: the divert is part of the choice's line, the line goes on in
+            // the target (inklecate: text, divert, then the newline)
+            let joined = if selected_text.ends_with(char::is_whitespace) {
+                selected_text.clone()
+            } else {
+                format!("{selected_text} ")
+            };
+            branch_nodes.extend(tokenize_inline_content(&joined)?);
         } else {
             branch_nodes.extend(tokenize_inline_content(selected_text)?);
         }
         branch_nodes.extend(choice.selected_tags.iter().cloned().map(Node::Tag));
+        if inline_single_divert && !body_already_emitted {
+            branch_nodes.extend(choice.body.clone());
+            branch_nodes.push(Node::Newline);
+            body_already_emitted = true;
+        }
         if !body_already_emitted {
             // Skip the auto-newline for terminal diverts, and also for inline diverts that are
             // authored after inline selected text on the same source line (the selected text keeps
